@@ -61,7 +61,7 @@ def plan(model_name, n, seed, first_tid):
         known = set(p.name for p in P.call_parameters)
         pars = {kk: float(v) for kk, v in pars.items() if kk in known}
         if dim == "1d":
-            cands = sorted(P.pd_1d)
+            cands = sorted(p.name for p in P.call_parameters if p.polydisperse and p.type not in ("orientation", "magnetic"))
         else:
             cands = sorted(p.name for p in P.call_parameters
                            if p.polydisperse and p.type != "orientation")
